@@ -316,3 +316,200 @@ Proof.
   - intros d v. apply restored_In.
   - intros H. now apply restored_all.
 Qed.
+
+(* ------------------------------------------------------------------ the per-step theorem WITH coupled pseudo-positioners *)
+Section RelativeCoupled.
+  Context {T P : Type}.
+  Variable add : T -> T -> T.
+  Variable zero : T.
+  Variable pos_of : val -> T.
+  Variable kind : dev -> dkind.
+  Variable position : dev -> T.
+  Variable resume : P -> input -> outcome P.
+  Variable view : msg -> rview T.
+  Variable mk : rview T -> msg.
+  Variable elig : dev -> bool.
+  Variable parent : dev -> option dev.
+  Variable coupled : dev -> bool.
+  Variable pseudos : dev -> list dev.
+  Variable comps : T -> list T.
+  Hypothesis view_mk : forall v, view (mk v) = v.
+
+  Notation decide := (rel_decide zero pos_of kind position view mk elig parent coupled pseudos comps).
+  Notation ins := (ins_resume resume decide).
+  Notation st_of x := (ins_store x Close).
+  Notation rec := (record position parent coupled pseudos comps).
+
+  (* what a step may do to initial_positions: nothing, or ONE run of the recording code for an eligible device that
+     was not recorded, with the value the code documents *)
+  Inductive recorded_c (st st' : @pstore T) : Prop :=
+    | recc_same : st' = st -> recorded_c st st'
+    | recc_new d v :
+        st' = rec d v st -> ps_get d st = None -> elig d = true ->
+        (kind d = KPosition /\ v = position d \/
+         kind d <> KPosition /\ exists ans, v = match ans with VNone => zero | _ => pos_of ans end) ->
+        recorded_c st st'.
+
+  Definition has (d : dev) (st : @pstore T) : Prop := ps_get d st <> None.
+
+  Lemma has_ps_set : forall (st : @pstore T) d k v, has d st \/ d = k -> has d (ps_set k v st).
+  Proof.
+    unfold has. induction st as [|[k' w] r IH]; intros d k v H; cbn.
+    - destruct H as [H|E]; [exfalso; apply H; reflexivity|]. subst. rewrite Nat.eqb_refl. discriminate.
+    - destruct (Nat.eqb k k') eqn:E; cbn.
+      + destruct (Nat.eqb d k') eqn:E2; [discriminate|].
+        destruct H as [H|E3]; [cbn in H; rewrite E2 in H; exact H|]. subst. congruence.
+      + destruct (Nat.eqb d k') eqn:E2; [discriminate|]. apply IH.
+        destruct H as [H|E3]; [left; cbn in H; rewrite E2 in H; exact H|now right].
+  Qed.
+
+  Lemma has_ps_set_zip : forall cs vs (st : @pstore T) d, has d st -> has d (ps_set_zip cs vs st).
+  Proof.
+    induction cs as [|c cs IH]; intros vs st d H; [exact H|].
+    destruct vs as [|v vs]; [exact H|]. cbn. apply IH. apply has_ps_set. now left.
+  Qed.
+
+  (* the recording code never forgets: every key stays, and the device it was run for is recorded *)
+  Lemma has_record_self : forall d v (st : @pstore T), has d (rec d v st).
+  Proof.
+    intros d v st. unfold record.
+    assert (H1 : has d (ps_set d v st)) by (apply has_ps_set; now right).
+    assert (H2 : has d (if coupled d then ps_set_zip (pseudos d) (comps v) (ps_set d v st) else ps_set d v st)).
+    { destruct (coupled d); [now apply has_ps_set_zip|exact H1]. }
+    destruct (parent d) as [p|]; [|exact H2].
+    destruct (coupled p && mem_d d (pseudos p)); [|exact H2].
+    apply has_ps_set_zip. apply has_ps_set. now left.
+  Qed.
+
+  Lemma has_record_keeps : forall d v (st : @pstore T) k, has k st -> has k (rec d v st).
+  Proof.
+    intros d v st k H. unfold record.
+    assert (H1 : has k (ps_set d v st)) by (apply has_ps_set; now left).
+    assert (H2 : has k (if coupled d then ps_set_zip (pseudos d) (comps v) (ps_set d v st) else ps_set d v st)).
+    { destruct (coupled d); [now apply has_ps_set_zip|exact H1]. }
+    destruct (parent d) as [p|]; [|exact H2].
+    destruct (coupled p && mem_d d (pseudos p)); [|exact H2].
+    apply has_ps_set_zip. apply has_ps_set. now left.
+  Qed.
+
+  Definition pend_ok_c (x : @istate P (@pstore T)) : Prop :=
+    match x with
+    | IRun _ st _ (Some (m, upd)) =>
+        exists d off g, view m = RSet d off g /\ elig d = true /\ ps_get d st = None /\ kind d <> KPosition /\
+                        upd = stash zero pos_of position parent coupled pseudos comps d
+    | _ => True
+    end.
+
+  Lemma on_msg_facts_c :
+    forall p' st seen m m' x',
+      ins_on_msg decide p' st seen m = Yielded m' x' ->
+      pend_ok_c x' /\ recorded_c st (st_of x') /\
+      (forall d off g, view m' = RSet d off g -> elig d = true ->
+         m' = m /\ (has d (st_of x') \/ c24a_msg view elig st seen m = true)).
+  Proof.
+    intros p' st seen m m' x' H. unfold ins_on_msg in H.
+    destruct (mem_nat m seen) eqn:Hseen.
+    - inversion H; subst. cbn. split; [exact I|]. split; [now left|].
+      intros d off g Hv He. split; [reflexivity|].
+      destruct (ps_get d st) eqn:Hg; [left; unfold has; congruence|right].
+      unfold c24a_msg. now rewrite Hseen, Hv, He, Hg.
+    - unfold rel_decide in H. destruct (view m) as [d off g|d|d|g|c] eqn:Hv;
+        try (inversion H; subst; cbn; split; [exact I|]; split; [now left|]; intros d0 off0 g0 Hv0 _; congruence).
+      destruct (elig d) eqn:He; cbn [andb] in H.
+      + destruct (ps_get d st) as [p0|] eqn:Hg; cbn [negb] in H.
+        * inversion H; subst. cbn. split; [exact I|]. split; [now left|].
+          intros d0 off0 g0 Hv0 _. split; [reflexivity|]. left. rewrite Hv in Hv0. inversion Hv0; subst. unfold has. congruence.
+        * destruct (kind d) eqn:Hk; inversion H; subst; cbn.
+          -- split; [exists d, off, g; repeat split; auto; congruence|]. split; [now left|].
+             intros d0 off0 g0 Hv0 _. rewrite view_mk in Hv0. discriminate.
+          -- split; [exact I|]. split.
+             ++ eapply recc_new; eauto.
+             ++ intros d0 off0 g0 Hv0 _. split; [reflexivity|]. left. rewrite Hv in Hv0. inversion Hv0; subst.
+                apply has_record_self.
+          -- split; [exists d, off, g; repeat split; auto; congruence|]. split; [now left|].
+             intros d0 off0 g0 Hv0 _. rewrite view_mk in Hv0. discriminate.
+      + inversion H; subst. cbn. split; [exact I|]. split; [now left|].
+        intros d0 off0 g0 Hv0 He0. rewrite Hv in Hv0. inversion Hv0; subst. congruence.
+  Qed.
+
+  Lemma ins_step_cases_c :
+    forall x i m' x', ins x i = Yielded m' x' ->
+      (exists i' m p', ins_host_input x i = Some i' /\ i' <> Close /\ resume (ins_plan x) i' = Yielded m p' /\
+                       ins_on_msg decide p' (st_of x) (ins_seen x) m = Yielded m' x')
+      \/
+      (exists p st seen upd r st', x = IRun p st seen (Some (m', upd)) /\ i = Send r /\ upd r st = UOk st' /\
+                                   x' = IRun p st' seen None).
+  Proof.
+    intros x i m' x' H. destruct x as [p st|p st seen [[m upd]|]]; cbn in H.
+    - destruct i as [[|z]|e|]; try discriminate. left. cbn.
+      destruct (resume p (Send VNone)) as [m p'|v|e|] eqn:E; try discriminate.
+      exists (Send VNone), m, p'. repeat split; auto; discriminate.
+    - destruct i as [r|e|].
+      + destruct (upd r st) as [st'|e] eqn:EU.
+        * inversion H; subst. right. exists p, st, seen, upd, r, st'. repeat split; auto.
+        * left. cbn. rewrite EU. destruct (resume p (Throw e)) as [m2 p'|v|e2|] eqn:E; try discriminate.
+          exists (Throw e), m2, p'. repeat split; auto; discriminate.
+      + left. cbn. destruct (is_GeneratorExit e) eqn:G.
+        * unfold ins_close in H. destruct (close_result (resume p Close)); discriminate.
+        * destruct (is_Exception e) eqn:Ex; [|discriminate].
+          destruct (resume p (Throw e)) as [m2 p'|v|e2|] eqn:E; try discriminate.
+          exists (Throw e), m2, p'. repeat split; auto; discriminate.
+      + unfold ins_close in H. destruct (close_result (resume p Close)); discriminate.
+    - destruct i as [r|e|].
+      + left. cbn. destruct (resume p (Send r)) as [m2 p'|v|e2|] eqn:E; try discriminate.
+        exists (Send r), m2, p'. repeat split; auto; discriminate.
+      + left. cbn. destruct (is_GeneratorExit e) eqn:G.
+        * unfold ins_close in H. destruct (close_result (resume p Close)); discriminate.
+        * destruct (is_Exception e) eqn:Ex; [|discriminate].
+          destruct (resume p (Throw e)) as [m2 p'|v|e2|] eqn:E; try discriminate.
+          exists (Throw e), m2, p'. repeat split; auto; discriminate.
+      + unfold ins_close in H. destruct (close_result (resume p Close)); discriminate.
+  Qed.
+
+  Theorem ins_step_facts_c :
+    forall x i m' x', pend_ok_c x -> ins x i = Yielded m' x' ->
+      pend_ok_c x' /\ recorded_c (st_of x) (st_of x') /\
+      (forall d off g, view m' = RSet d off g -> elig d = true ->
+         has d (st_of x') \/ c24a_step resume view elig x i = true).
+  Proof.
+    intros x i m' x' HI H.
+    destruct (ins_step_cases_c x i m' x' H) as [(i' & m & p' & Hin & Hnc & Hres & Hon)|(p & st & seen & upd & r & st' & -> & -> & HU & ->)].
+    - destruct (on_msg_facts_c p' (st_of x) (ins_seen x) m m' x' Hon) as (HP & HR & HS).
+      split; [exact HP|]. split; [exact HR|].
+      intros d off g Hv He. destruct (HS d off g Hv He) as [-> [Hk|Hc]]; [now left|right].
+      unfold c24a_step, ins_step_exists. rewrite Hin. destruct i'; try congruence; now rewrite Hres.
+    - cbn in HI. destruct HI as (d & off & g & Hv & He & Hg & Hk & ->).
+      unfold stash in HU. inversion HU; subst. cbn. split; [exact I|]. split.
+      + eapply recc_new; eauto; right; (split; [exact Hk|now exists r]).
+      + intros d0 off0 g0 Hv0 _. left. rewrite Hv in Hv0. inversion Hv0; subst. apply has_record_self.
+  Qed.
+
+  Lemma pend_ok_c_step : forall x i m x', pend_ok_c x -> ins x i = Yielded m x' -> pend_ok_c x'.
+  Proof. intros x i m x' HI H. now destruct (ins_step_facts_c x i m x' HI H). Qed.
+
+  (* With ANY coupled_parents: along every run, at every yielding step, initial_positions is unchanged or extended by ONE
+     run of the recording code ([record]: the device -- and, for an axis of a coupled pseudo-positioner, its parent and
+     siblings) for an eligible device not recorded before; nothing recorded is ever forgotten; a set on an eligible device
+     leaves -- outside class C24-a -- only once its device is recorded and is re-created as set(initial + offset) with the
+     value recorded for it at that moment; non-set messages pass unchanged. *)
+  Theorem relative_step_coupled :
+    forall p s x i m x',
+      after ins (IStart p []) s = Some x -> ins x i = Yielded m x' ->
+      recorded_c (st_of x) (st_of x') /\
+      (forall k, has k (st_of x) -> has k (st_of x')) /\
+      (forall d off g, view m = RSet d off g -> elig d = true -> c24a_step resume view elig x i = false ->
+         exists p0, ps_get d (st_of x') = Some p0 /\ rewrite_pos add view x' m = Some (RSet d (add p0 off) g)) /\
+      (forall c, view m = c -> (forall d off g, c <> RSet d off g) -> rewrite_pos add view x' m = None).
+  Proof.
+    intros p s x i m x' HA H.
+    assert (HI : pend_ok_c x).
+    { eapply (after_inv ins pend_ok_c pend_ok_c_step); [|exact HA]. exact I. }
+    destruct (ins_step_facts_c x i m x' HI H) as (_ & HR & HS).
+    split; [exact HR|]. split; [|split].
+    - intros k Hk. destruct HR as [->|d v -> _ _ _]; [exact Hk|now apply has_record_keeps].
+    - intros d off g Hv He Hc. destruct (HS d off g Hv He) as [Hk|Hk]; [|congruence].
+      unfold has in Hk. destruct (ps_get d (st_of x')) as [p0|] eqn:Hg; [|congruence].
+      exists p0. split; [reflexivity|]. unfold rewrite_pos. now rewrite Hv, Hg.
+    - intros c Hv Hn. unfold rewrite_pos. rewrite Hv. destruct c; try reflexivity. exfalso. eapply Hn. reflexivity.
+  Qed.
+End RelativeCoupled.
